@@ -399,6 +399,61 @@ func runTopology(rec *mon.Recorder, c int) {
 			checked++
 		}
 	}
+	// phase 4: a node that holds replicas has left the cluster (removed from the membership; the catalogue still
+	// lists it). Its partitions cannot be searched there any more: a search either reaches another replica of each
+	// of them and is exact, or fails; it never answers from the remaining partitions alone.
+	if nodes >= 2 && rec.Violations() == 0 {
+		hosts := map[uint64]int{}
+		d0 := cl.Nodes[0].Dataset(dsId)
+		for pid := range pids {
+			for _, nid := range d0.VerifPartitionNodeIds(pid) {
+				hosts[nid]++
+			}
+		}
+		var gone *sim.Node
+		for _, n := range cl.Nodes[1:] {
+			if hosts[n.Id] > 0 {
+				gone = n
+			}
+		}
+		if gone != nil {
+			var rmErr error
+			ok := cl.Guard(20*time.Second, func() { rmErr = cl.Nodes[0].In.NodesManager.RemoveNode(gone.Id) })
+			if ok && rmErr == nil {
+				var left []*sim.Node
+				for _, n := range cl.Nodes {
+					if n != gone {
+						left = append(left, n)
+					}
+				}
+				cl.WaitFor(10*time.Second, func() bool {
+					for _, n := range left {
+						if _, listed := n.In.ClusterConn.Nodes()[gone.Id]; listed {
+							return false
+						}
+					}
+					return true
+				})
+				cl.Crash(gone.Idx)
+				for s := 0; s < 24; s++ {
+					via := left[s%len(left)]
+					q, k := newQuery(), ks[s%len(ks)]
+					sctx, cancel := context.WithTimeout(ctx, 5*time.Second)
+					res, err := via.Dataset(dsId).Search(sctx, q, k)
+					cancel()
+					rec.Count("searches_after_a_node_left", 1)
+					if err != nil {
+						rec.Count("searches_after_a_node_left_failed_loudly", 1)
+						continue
+					}
+					if !checkResult(outcome{q, k, res, err}, "after-a-node-left-the-cluster") {
+						break
+					}
+					checked++
+				}
+			}
+		}
+	}
 	rec.Count("searches_checked", int64(checked))
 	rec.Seen("topologies", fmt.Sprintf("n%d p%d r%d", nodes, parts, repl))
 	rec.Case(mon.Digest(desc, perPart), checked >= 50)
